@@ -480,7 +480,7 @@ def _subst_names(e, sub):
     return T().visit(copy.deepcopy(e))
 
 
-def outcomes_by_case(stmts, cases, atom, facts=None, on_node=None):
+def outcomes_by_case(stmts, cases, atom, facts=None, on_node=None, truthy=None):
     """Abstract interpretation of a small decision procedure: for every abstract case (dict of symbol -> int/bool) the feasible paths of
     `stmts` are followed with each test evaluated on the case (comparison predicates over the named atoms, via domains.eval_pred) or,
     failing that, on `facts` ({source: bool}) / constants assigned on the path.  Yields (case, outcomes) where outcomes is a set of
@@ -520,6 +520,11 @@ def outcomes_by_case(stmts, cases, atom, facts=None, on_node=None):
                 if isinstance(x, ast.UnaryOp) and isinstance(x.op, ast.Not):
                     v = rec(x.operand)
                     return UNK if v is UNK else (not v)
+                if truthy is not None and not isinstance(x, (ast.Compare, ast.BoolOp)):
+                    # a value in a truthiness position (`if not ranked:`): the rule says what its truth value is on the case
+                    tv = truthy(x, case)
+                    if tv is not UNK and tv is not None:
+                        return bool(tv)
                 try:
                     return eval_pred(x, case, atom)
                 except Exception:
